@@ -124,7 +124,7 @@ def run(ctx):
         if bl.idx not in fn.reachable():
             continue
         for i, st in enumerate(bl.stmts):
-            if st["k"] == "assign" and st["dst"]["l"] == 0 and st["rv"]["k"] == "agg" and st["rv"].get("vname") == "Some":
+            if fn.is_return_assign(st, "Some"):
                 somes.append((bl.idx, i, ev.rvalue(st["rv"], (bl.idx, i))))
     for (bb, i, term) in somes:
         x = W.expand(term[2][0])
@@ -153,7 +153,7 @@ def run(ctx):
     oks = []
     for bl in rf.blocks:
         for i, st in enumerate(bl.stmts):
-            if bl.idx in rf.reachable() and st["k"] == "assign" and st["dst"]["l"] == 0 and st["rv"]["k"] == "agg" and st["rv"].get("vname") == "Ok":
+            if bl.idx in rf.reachable() and rf.is_return_assign(st, "Ok"):
                 oks.append(bl.idx)
     for bb in oks:
         rels = flow.rel_facts_at(RIN, bb)
@@ -182,6 +182,8 @@ def run(ctx):
     nf = ctx.fn(sm.NONCE_FROM_REQUEST)
     nev = W.ev(nf.path)
     fwd = [nev.call_args(bb)[1] for bb, t in nf.calls() if RFC in P.call_targets(t)]
+    if len(a) != 3:
+        raise AnchorMissing("nonce_from_request(buf, num_bytes, expected_srv): the call in collect_requests passes %d arguments" % len(a))
     ctx.check("gate", "expected-srv-is-this-servers", a[2] == ("field", ("param", cfn.path, 1), "srv_value") and is_call(sv, "LongTermKey::srv_value") and fwd == [("param", nf.path, 3)],
               "expected_srv = Server.srv_value = long_term_key.srv_value()", "expected_srv is %s (%s)" % (fmt(a[2]), fmt(sv)), cfn.loc(calls[0]))
 
